@@ -13,6 +13,13 @@ pub struct Case {
     pub cfg: CtxCfg,
     /// Process / Decode / GetLength steps applied in order to one context
     pub ops: Vec<Op>,
+    /// the whole list is applied this many times (long histories)
+    #[serde(default = "one")]
+    pub repeat: u32,
+}
+
+fn one() -> u32 {
+    1
 }
 
 pub struct C10;
@@ -85,10 +92,10 @@ impl Prop for C10 {
         "C10"
     }
     fn rule(&self) -> String {
-        "generated: sequences of 1-6 decode_packet / get_length / process_packet calls on one validly configured context (7-bit address, 0-30 message types, 1-16 vendor sets of format 0/1, response buffer 64-300 bytes); inputs of length 0-640: frame-grammar packets (every command code, completion code, operation and selector value), reference-encoded valid packets, their one-byte mutations and truncations, control requests with the right data length for every command, random bytes. enumerated (both tiers): every truncation point of 24 reference-encoded packets (as is and with the PEC repaired) and every value 0..255 of every byte position of those packets (PEC repaired), through all three entry points. oracle: catch_unwind around each call, built with overflow checks and debug assertions. non-trivial = the sequence contains an input that passes transport-header and type validation, or a truncation of a valid packet; distinct by hash".into()
+        "generated: sequences of 1-6 decode_packet / get_length / process_packet calls on one validly configured context (7-bit address, 0-30 message types, 0-16 vendor sets of format 0/1, response buffer 64-300 bytes), the sequence being applied once or - three cases in a hundred - 2-8 or 256-400 times over (long histories); inputs of length 0-640: frame-grammar packets (every command code, completion code, operation and selector value), reference-encoded valid packets, their one-byte mutations and truncations, control requests with the right data length for every command, random bytes. enumerated (both tiers): every truncation point of 24 reference-encoded packets (as is and with the PEC repaired) and every value 0..255 of every byte position of those packets (PEC repaired), through all three entry points. oracle: catch_unwind around each call, built with overflow checks and debug assertions. non-trivial = the sequence contains an input that passes transport-header and type validation, or a truncation of a valid packet; distinct by hash".into()
     }
     fn assumptions(&self) -> Vec<String> {
-        vec!["not demanded: behaviour with invalid configuration (vendor format not 0/1, more than 30 message types, no vendor set, response buffer shorter than 64 bytes)".into()]
+        vec!["not demanded: behaviour with invalid configuration (vendor format not 0/1, more than 30 message types, response buffer shorter than 64 bytes); a context without any vendor ID set is treated as valid".into()]
     }
     fn strategy(&self, _tier: Tier) -> BoxedStrategy<Case> {
         let input = prop_oneof![
@@ -111,7 +118,7 @@ impl Prop for C10 {
             3 => input.clone().prop_map(|bytes| Op::Decode { bytes }),
             1 => input.prop_map(|bytes| Op::GetLength { bytes }),
         ];
-        (gen::ctx_cfg(), proptest::collection::vec(op, 1..=6)).prop_map(|(cfg, ops)| Case { cfg, ops }).boxed()
+        (gen::ctx_cfg_maybe_no_vendor(), proptest::collection::vec(op, 1..=6), prop_oneof![200 => Just(1u32), 4 => 2u32..=8, 2 => 256u32..=400]).prop_map(|(cfg, ops, repeat)| Case { cfg, ops, repeat }).boxed()
     }
     fn budget(&self, tier: Tier) -> u64 {
         match tier {
@@ -120,7 +127,7 @@ impl Prop for C10 {
         }
     }
     fn required_labels(&self) -> Vec<&'static str> {
-        vec!["short", "ctrl_short", "resp_cc_undefined", "req_cmd_unk", "req_cmd_01_op_2", "req_cmd_01_op_other", "req_cmd_06_sel_ff", "req_cmd_06_sel_n", "req_cmd_07", "req_cmd_00", "entry_process", "entry_decode", "entry_get_length", "empty_input"]
+        vec!["short", "ctrl_short", "resp_cc_undefined", "req_cmd_unk", "req_cmd_01_op_2", "req_cmd_01_op_other", "req_cmd_06_sel_ff", "req_cmd_06_sel_n", "req_cmd_07", "req_cmd_00", "entry_process", "entry_decode", "entry_get_length", "empty_input", "no_vendor_sets", "history_of_256_or_more_rounds"]
     }
     fn enumerate(&self, tier: Tier, shard: usize, nshards: usize, f: &mut dyn FnMut(Case)) {
         let cfg = CtxCfg { addr: 0x23, msg_types: vec![0x7E, 0x05], vendors: vec![(0, 0x1234, 0xAB), (1, 0x11223344, 7)] };
@@ -137,6 +144,7 @@ impl Prop for C10 {
                     Op::Decode { bytes: bytes.clone() },
                     Op::Process { bytes, cap: 64, fill: 0x11 },
                 ],
+                repeat: 1,
             });
         };
         for p in base_packets() {
@@ -164,7 +172,7 @@ impl Prop for C10 {
         // every control byte x command x completion code x data length (see C09)
         let cfg2 = cfg.clone();
         super::enumer::for_each_control_packet(tier, shard, nshards, &mut |bytes| {
-            f(Case { cfg: cfg2.clone(), ops: vec![Op::Process { bytes, cap: 64, fill: 0x22 }] });
+            f(Case { cfg: cfg2.clone(), ops: vec![Op::Process { bytes, cap: 64, fill: 0x22 }], repeat: 1 });
         });
     }
     fn enumerated_desc(&self, tier: Tier) -> Option<String> {
@@ -174,7 +182,14 @@ impl Prop for C10 {
         let mut r = CaseResult::default();
         let store = CtxStore::new(&case.cfg);
         let mut ctx = store.ctx();
-        for (i, op) in case.ops.iter().enumerate() {
+        if case.cfg.vendors.is_empty() {
+            r.label("no_vendor_sets");
+        }
+        if case.repeat >= 256 {
+            r.label("history_of_256_or_more_rounds");
+        }
+        let rounds = case.repeat.clamp(1, 100_000) as usize;
+        for (i, op) in (0..rounds).flat_map(|k| case.ops.iter().enumerate().map(move |(j, o)| (k * case.ops.len() + j, o))) {
             let (entry, bytes): (&'static str, &[u8]) = match op {
                 Op::Process { bytes, .. } => ("process", bytes),
                 Op::Decode { bytes } => ("decode", bytes),
